@@ -568,12 +568,45 @@ func stringifyKeys(v reflect.Value) any {
 
 // MarshalJSON returns the JSON encoding of s.
 func (s *Schema) MarshalJSON() ([]byte, error) {
-	return MarshalJSON((*_Schema)(s), s.Extensions)
+	v, exts := s.booleanExclusiveBounds()
+	return MarshalJSON(v, exts)
 }
 
 // MarshalYAML returns value which marshaled in place of the original value
 func (s *Schema) MarshalYAML() (any, error) {
-	return MarshalYAML((*_Schema)(s), s.Extensions)
+	v, exts := s.booleanExclusiveBounds()
+	return MarshalYAML(v, exts)
+}
+
+// booleanExclusiveBounds returns the value and extensions to marshal for s.
+// Swagger 2.0 and OpenAPI 3.0 use the JSON schema draft 4 form of exclusive
+// bounds: "minimum: x, exclusiveMinimum: true". The numeric form
+// "exclusiveMinimum: x" is not valid in these documents. When both an inclusive
+// and an exclusive bound are set the stricter one is rendered.
+func (s *Schema) booleanExclusiveBounds() (*_Schema, map[string]any) {
+	if s.ExclusiveMinimum == nil && s.ExclusiveMaximum == nil {
+		return (*_Schema)(s), s.Extensions
+	}
+	v := _Schema(*s)
+	exts := make(map[string]any, len(s.Extensions)+2)
+	for k, e := range s.Extensions {
+		exts[k] = e
+	}
+	if x := v.ExclusiveMinimum; x != nil {
+		if v.Minimum == nil || *x >= *v.Minimum {
+			v.Minimum = x
+			exts["exclusiveMinimum"] = true
+		}
+		v.ExclusiveMinimum = nil
+	}
+	if x := v.ExclusiveMaximum; x != nil {
+		if v.Maximum == nil || *x <= *v.Maximum {
+			v.Maximum = x
+			exts["exclusiveMaximum"] = true
+		}
+		v.ExclusiveMaximum = nil
+	}
+	return &v, exts
 }
 
 // Dup creates a shallow clone of the given schema.
